@@ -280,6 +280,14 @@ namespace std {
   }
 }
 
+// literal (arithmetic) operands mixed with complex<Sym>: `2.0 * z` compiles for
+// complex<double>, so it must for complex<Sym>
+#define SYMX_CMIX(OP) \
+  template<class A, SYMX_ARITH(A)> inline std::complex<Sym> operator OP (A a, const std::complex<Sym>& z) { return Sym(a) OP z; } \
+  template<class A, SYMX_ARITH(A)> inline std::complex<Sym> operator OP (const std::complex<Sym>& z, A a) { return z OP Sym(a); }
+SYMX_CMIX(+) SYMX_CMIX(-) SYMX_CMIX(*) SYMX_CMIX(/)
+#undef SYMX_CMIX
+
 inline std::ostream& operator << (std::ostream& os, const Sym& s) { return os << s.v; }
 inline std::istream& operator >> (std::istream& is, Sym& s)
 { symx::real_t v; is >> v; if (is) s = Sym(v); return is; }
